@@ -391,6 +391,21 @@ func runDriver(c *harness.Ctx) harness.Result {
 		}
 		s.Label["id"] = []string{fmt.Sprint(i)}
 	}
+	// a single source is not merged: a sample recorded twice stays two samples, and a sample whose
+	// values are all zero stays
+	injected := false
+	if r.Intn(3) == 0 && len(p.Sample) > 0 {
+		injected = true
+		src := p.Sample[r.Intn(len(p.Sample))]
+		dup := &profile.Sample{Value: append([]int64(nil), src.Value...), Location: src.Location, Label: src.Label, NumLabel: src.NumLabel, NumUnit: src.NumUnit}
+		if r.Intn(2) == 0 {
+			dup.Label = map[string][]string{"id": {fmt.Sprint(len(p.Sample))}}
+			for i := range dup.Value {
+				dup.Value[i] = 0
+			}
+		}
+		p.Sample = append(p.Sample, dup)
+	}
 	e := exprs[r.Intn(len(exprs))]
 	pf := ""
 	if r.Intn(2) == 0 {
@@ -428,7 +443,7 @@ func runDriver(c *harness.Ctx) harness.Result {
 		return hit == (nameOpt == "ignore")
 	}
 	want := map[string]exp{}
-	for i, s := range p.Sample {
+	for _, s := range p.Sample {
 		fs := refPrune(framesOf(s), drop, keep)
 		dv := devPrune(s, drop, keep)
 		x := exp{known: inClass(s, drop, keep)}
@@ -439,7 +454,7 @@ func runDriver(c *harness.Ctx) harness.Result {
 			dv = refPruneFrom(dv, rx)
 		}
 		x.frames, x.dev = fstr(fs), fstr(dv)
-		want[fmt.Sprint(i)] = x
+		want[s.Label["id"][0]] = x
 	}
 	desc := fmt.Sprintf("drop_frames=%q keep_frames=%q prune_from=%q", e[0], e[1], pf)
 	if nameOpt != "" {
@@ -448,7 +463,7 @@ func runDriver(c *harness.Ctx) harness.Result {
 	}
 	res := harness.Result{NonTrivial: true, Sig: desc + fmt.Sprint(len(p.Sample), c.Index), Sample: map[string]any{"options": desc}}
 	profs, srcs, extra := map[string]*profile.Profile{"p": p}, []string{"p"}, 0
-	if r.Intn(3) == 0 {
+	if !injected && r.Intn(3) == 0 {
 		// a second source with rules of its own: the rules of the first source listed apply
 		o := exprs[r.Intn(len(exprs))]
 		p2 := &profile.Profile{DropFrames: o[0], KeepFrames: o[1], Sample: []*profile.Sample{{Value: make([]int64, len(p.SampleType)), Label: map[string][]string{"id": {"x"}}}}}
